@@ -1162,7 +1162,7 @@ func (ex *executor) judgeDiskFault(idx int, class string, st *Step, xc *Exchange
 		case "write":
 			written[c.Path] += c.N
 		case "close":
-			if n, ok := written[c.Path]; ok && n == len(st.Body) {
+			if written[c.Path] == len(st.Body) {
 				complete = true
 			}
 		}
